@@ -1,6 +1,7 @@
 package main
 
 import (
+	"runtime"
 	"runtime/debug"
 	"strings"
 	"time"
@@ -24,7 +25,30 @@ type leakedLock string
 
 func hookYield(p string) {
 	if simS != nil {
+		// A yield reached from a deferred call while the task is panicking (a deferred Unlock)
+		// must not hand the baton on: the real process would already be going down, and the
+		// verdict has to be the panic that was raised first, not a secondary one provoked in
+		// another task that runs on the half-unwound state.
+		if strings.Contains(p, "nlock") && panicking() {
+			return
+		}
 		simS.Yield(p)
+	}
+}
+
+// panicking reports whether the calling goroutine is running deferred calls of a panic.
+func panicking() bool {
+	var pcs [48]uintptr
+	n := runtime.Callers(2, pcs[:])
+	frames := runtime.CallersFrames(pcs[:n])
+	for {
+		f, more := frames.Next()
+		if f.Function == "runtime.gopanic" {
+			return true
+		}
+		if !more {
+			return false
+		}
 	}
 }
 
